@@ -816,13 +816,16 @@ PROPS = {
         rule="every sequence of length 6 (thorough 7) over {register (at most 3), wait-poll i, submit, finish i, completion-poll} "
              "executed on the real Shutdown with futures polled by hand (noop waker), plus 2000 (20000) random histories of length "
              "8-20; live sessions: 1 and 3 idle HTTP/1.1 connections / HTTP/2 sessions with an open stream through the real Tunnel::listen "
-             "under the paused clock: they must stay up before the submission, wind down after it, and completion() must return",
+             "under the paused clock: they must stay up before the submission, wind down after it, and completion() must return; and one "
+             "idle participant of every kind (tunnel h1/h2, ping h1/h2, speedtest h1/h2, reverse proxy h1, the metrics listener, none) "
+             "through its real handler: completion() must stay pending while it is alive, it must wind down on submit, and completion() "
+             "must then return",
         explanation="theorems registered_before_submit_observes, waiting_participant_is_woken, no_submit_no_notification, "
                     "completion_iff_all_finished, completion_stable, late_registration_gets_no_guard about TT/Model/Shutdown.lean",
         trusted=["tokio broadcast (capacity 1, lag) and mpsc close semantics as modelled",
                  "process exit in endpoint/src/main.rs and the std Mutex held across completion().await (a registration arriving while "
                  "completion() is awaited blocks its thread) are not modelled",
-                 "QUIC close and the three service handlers use the same select pattern as Tunnel::listen (read, not driven here)"],
+                 "the HTTP/3 variants of the handlers and the core's accept loops use the same select pattern (read, not driven here)"],
         assumptions=[],
     ),
     "C18": dict(
